@@ -510,3 +510,34 @@ PLANS["C16"] = {"engines": [{"engine": "neg", "trace_module": "NegTrace",
                              "constants": {"Strict": "TRUE"},
                              "nontrivial": lambda c: c["abs"]["k"] == "list" and len(c["abs"]["l"]) > 0}],
                 "mc": lambda tier: [("neg", neg_mc(tier))], "witness": {"neg": ["W_True", "W_Both"]}}
+
+
+# ====================================================================== file / dir engines
+import filegen  # noqa: E402
+
+
+def readfile_mc(tier):
+    c = {"MaxSize": 9 if tier == "quick" else 12, "ReadSize": 4, "MaxTrunc": 2 if tier == "quick" else 3}
+    return ("ReadFileMC", c, ["PropInv", "Bounded"], ["ReadFileMC.Trunc", "ReadFileMC.Poll"])
+
+
+PLANS["C18"] = {"engines": [{"engine": "file", "trace_module": "FileTrace",
+                             "cases": lambda tier, seed: filegen.file_cases(tier, seed),
+                             "constants": {"Strict": "TRUE", "ReadSizeReal": "65536"},
+                             "nontrivial": lambda c: c["kind"] != "stream" or c.get("b", 0) > c.get("a", 0)}],
+                "mc": lambda tier: [("readfile", readfile_mc(tier))],
+                "witness": {"readfile": ["W_Err", "W_MultiChunk"]}}
+
+
+def fsdir_mc(tier):
+    c = {"SegSet": '{"a", "sub", "..", ".", "...", "..a", "a..", "", "secret", "b"}' if tier == "thorough"
+         else '{"a", "sub", "..", ".", "...", "..a", "a..", "", "secret"}', "MaxSegs": 4 if tier == "thorough" else 3}
+    return ("FsDirMC", c, ["Contained", "Sufficient", "Rejects", "Exact"], [])
+
+
+PLANS["C19"] = {"engines": [{"engine": "dir", "trace_module": "DirTrace",
+                             "cases": lambda tier, seed: filegen.dir_cases(tier, seed),
+                             "constants": {"Strict": "TRUE"},
+                             "nontrivial": lambda c: True}],
+                "mc": lambda tier: [("fsdir", fsdir_mc(tier))],
+                "witness": {"fsdir": ["W_Dots", "W_Gz", "W_Escape"]}}
